@@ -16,7 +16,7 @@ QUERIES0 = [
     "available_jobs", "completed_operations", "uncompleted_operations",
     "ongoing_operations",
 ]
-QUERIES1 = ["earliest_start_time", "next_operation", "is_scheduled", "uns_observer", "min_start_time", "start_time"]
+QUERIES1 = ["earliest_start_time", "next_operation", "is_scheduled", "uns_observer", "min_start_time", "start_time", "is_ongoing"]
 INVALID_KINDS = [
     "ahead", "already_scheduled", "ineligible_machine", "machine_too_large",
     "machine_too_negative", "none_on_flexible",
@@ -37,9 +37,31 @@ LEVELS = {
 BUILDERS = ["disjunctive", "agent_task", "agent_task_with_jobs", "agent_task_complete"]
 
 
+def build_from_blocks_reversed(instance):
+    """The complete agent-task graph composed by hand from the exported building blocks, with the machine and job
+    nodes added in descending id order (nothing says in which order a user adds them)."""
+    from job_shop_lib import graphs as g
+    from job_shop_lib.graphs import JobShopGraph, Node, NodeType
+
+    graph = JobShopGraph(instance)
+    for m in reversed(range(instance.num_machines)):
+        graph.add_node(Node(node_type=NodeType.MACHINE, machine_id=m))
+    g.add_operation_machine_edges(graph)
+    g.add_machine_machine_edges(graph)
+    for j in reversed(range(instance.num_jobs)):
+        graph.add_node(Node(node_type=NodeType.JOB, job_id=j))
+    g.add_operation_job_edges(graph)
+    g.add_global_node(graph)
+    g.add_machine_global_edges(graph)
+    g.add_job_global_edges(graph)
+    return graph
+
+
 def graph_builder(name):
     from job_shop_lib import graphs as g
 
+    if name == "blocks_reversed":
+        return build_from_blocks_reversed
     return {
         "disjunctive": g.build_disjunctive_graph,
         "agent_task": g.build_agent_task_graph,
@@ -153,7 +175,10 @@ def rec_classes():
     class RecOther(_Rec):
         _is_singleton = True
 
-    _REC.update(single=RecSingle, multi=RecMulti, other=RecOther)
+    class RecSingleSub(RecSingle):
+        """A user's refinement of a singleton observer: it *is* a RecSingle."""
+
+    _REC.update(single=RecSingle, multi=RecMulti, other=RecOther, subsingle=RecSingleSub)
     return _REC
 
 
@@ -165,8 +190,21 @@ def _ft(levels):
     return [FeatureType(x) for x in levels]
 
 
+def mark_manual(rng, obs, p=0.1):
+    """Some observers are constructed unsubscribed and subscribed by hand right afterwards (``subscribe=False`` then
+    ``dispatcher.subscribe``): to the user this is the same as ``subscribe=True``."""
+    for s in obs:
+        if s["t"] not in ("unscheduled", "composite") and rng.random() < p:
+            s["manual"] = True
+    return obs
+
+
 def make_observer(disp, spec, world=None):
     """Constructs one observer from its JSON spec (may raise: caller decides)."""
+    if spec.get("manual"):
+        o = make_observer(disp, {**spec, "manual": False, "sub": False}, world)
+        disp.subscribe(o)
+        return o
     t = spec["t"]
     sub = spec.get("sub", True)
     if t in FEATURE_TYPES:
@@ -218,6 +256,9 @@ def make_observer(disp, spec, world=None):
             cand = [n.node_id for n in graph.nodes if n.node_type.name != "OPERATION" and not graph.is_removed(n)]
             if cand:
                 graph.remove_node(cand[spec["pre_removed"] % len(cand)])
+        if spec.get("kw_default"):
+            # the documented defaults (remove completed machine and job nodes), not spelled out by the caller
+            return ResidualGraphUpdater(disp, graph, subscribe=sub)
         return ResidualGraphUpdater(
             disp, graph, subscribe=sub,
             remove_completed_machine_nodes=spec.get("rm", True),
